@@ -254,7 +254,14 @@ def _clone(how, sample):
         return copy.copy(sample)
     if how == "deepcopy":
         return copy.deepcopy(sample)
-    return pickle.loads(pickle.dumps(sample))
+    try:
+        return pickle.loads(pickle.dumps(sample))
+    except pickle.PicklingError as e:
+        if "not the same object" in str(e):
+            # a module was re-executed (pbt/ambient.py 'reload') after the activation rows were made: instances of the
+            # previous class object cannot be pickled by Python's own rules; use a deep copy instead
+            return copy.deepcopy(sample)
+        raise
 
 
 def same_outcome(a, b):
